@@ -93,6 +93,8 @@ func c04(r *core.Run) {
 		r.Rule("R12", "no queued request is dropped or handled twice inside a group (shared with C02.Q1 / Q2): a work item's callback queue is only ever tail-appended with the submitted callback and read by len / index in the drain loop, whose counter starts at 0, is compared with the re-loaded length and advances by one per call; a drain that re-slices the queue while callbacks are still being read from its backing array lets a later append overwrite a pending request's callback (never answered) with another one (answered twice)", 6)
 		c02GroupQueue(r, "R12", sa, root)
 		c02Drain(r, "R12", sa)
+		r.Rule("R16", "the defaults are the documented ones: where a configuration setter of the service falls back on a constant for a bad argument, the constructor initialises the same member with the same constant (sibling agreement) - the in-channel between the NATS client and the listener is the only buffer for incoming requests, and the client drops what does not fit: a constructor default of 32 instead of the documented 1024 loses every request of a burst beyond the 32nd, unanswered", 1)
+		c04ConstructorDefaultsAgree(r, "R16")
 		r.Rule("R15", "one set of subscriptions (shared with C09.S10): the subscribing function is called only from serve's start-up sequence - subscribing again in the reconnect handler doubles every subscription (the client replays them itself), and without a queue group every request is then answered once per copy", 1)
 		if sub := subscribeFn(p); sub != nil {
 			c09SubscribesOnlyAtStartUp(r, "R15", sub)
@@ -363,6 +365,16 @@ func c04(r *core.Run) {
 				}
 				r.Check(st.Only(stYes), "R3", core.FuncName(proc), "return:"+returnDesc(ret, conds), p.InstrPos(ret),
 					"replied or dispatched on every path", "state="+stateStr(st)+": request processing can return without a reply and without dispatching")
+			}
+			// ... and the dispatcher is reached only while nothing was sent yet: a path that answered (a
+			// refusal sent on a request object of its own: bad payload, no handler) and falls through to
+			// the dispatch answers twice - the handler's request has its own replied flag
+			for _, dc := range callsTo([]*ssa.Function{proc}, disp[0]) {
+				st := res.Before[dc]
+				if st.Empty() {
+					continue
+				}
+				r.Check(st.Only(stNo), "R3", core.FuncName(proc), "dispatch-only-while-unanswered", p.InstrPos(dc), "no path to the dispatcher has replied", "state="+stateStr(st)+": the dispatcher can be reached after a response was already sent on this path (an error reply for a bad payload that does not return): the handler runs and answers again - two responses to one request")
 			}
 			delete(mReq.extraMust, disp[0])
 			// the dispatcher is only reached with a routed handler: the "access request without an
@@ -1209,4 +1221,82 @@ func c04ConnectionKeepsBuffering(r *core.Run, rule string) {
 		return
 	}
 	r.OK(rule, "connection-options", "reconnect-buffer-kept", "-", fmt.Sprintf("%d nats.Connect call(s), %d option(s) inspected: none disables reconnecting or the reconnect buffer", nConn, nOpt))
+}
+
+// c04ConstructorDefaultsAgree is C04.R16.
+func c04ConstructorDefaultsAgree(r *core.Run, rule string) {
+	p := r.P
+	ctor := map[core.Field][]int64{}
+	setter := map[core.Field][]int64{}
+	where := map[core.Field]ssa.Instruction{}
+	for _, fn := range p.FuncsOfPkg("") {
+		if fn.Parent() != nil {
+			continue
+		}
+		isCtor := fn.Signature.Recv() == nil && strings.HasPrefix(fn.Name(), "New") && fn.Signature.Results().Len() == 1 && strings.HasSuffix(core.TypeName(fn.Signature.Results().At(0).Type()), "Service")
+		isSetter := fn.Signature.Recv() != nil && core.TypeName(fn.Signature.Recv().Type()) == "Service" && strings.HasPrefix(fn.Name(), "Set")
+		if !isCtor && !isSetter {
+			continue
+		}
+		for _, in := range instrsOf(fn) {
+			st, ok := in.(*ssa.Store)
+			if !ok {
+				continue
+			}
+			f, ok := core.FieldOf(st.Addr)
+			if !ok || f.Struct != "Service" {
+				continue
+			}
+			// the constants the member can receive: stored directly, or handed to a helper of the
+			// package that chooses between the argument and a default (positiveOrDefault(n, 1024))
+			var consts []int64
+			for _, src := range phiSources(st.Val) {
+				if k, isK := core.ConstInt(src.V); isK {
+					consts = append(consts, k)
+					continue
+				}
+				if hc, isC := core.Strip(src.V).(*ssa.Call); isC {
+					if cal := hc.Common().StaticCallee(); cal != nil && cal.Pkg == fn.Pkg && len(cal.Blocks) > 0 {
+						for _, a := range hc.Common().Args {
+							if k, isK := core.ConstInt(a); isK {
+								consts = append(consts, k)
+							}
+						}
+					}
+				}
+			}
+			for _, k := range consts {
+				if isCtor {
+					ctor[f] = append(ctor[f], k)
+					where[f] = st
+				} else {
+					setter[f] = append(setter[f], k)
+				}
+			}
+		}
+	}
+	n := 0
+	for f, cs := range ctor {
+		ss := setter[f]
+		if len(ss) == 0 {
+			continue
+		}
+		n++
+		agree := true
+		for _, c := range cs {
+			found := false
+			for _, s2 := range ss {
+				if s2 == c {
+					found = true
+				}
+			}
+			if !found {
+				agree = false
+			}
+		}
+		r.Check(agree, rule, "NewService", "constructor-default=setter-default("+f.String()+")", p.InstrPos(where[f]), fmt.Sprintf("constructor stores %v, the setter falls back on %v", cs, ss), fmt.Sprintf("the constructor initialises %s with %v while its setter's fallback default is %v: the service runs with another default than the documented one", f.String(), cs, ss))
+	}
+	if n == 0 {
+		r.Unres(rule, "NewService/<setters>", "no member initialised by the constructor that a setter defaults with a constant")
+	}
 }
